@@ -28,6 +28,24 @@ def run_case(case):
     specs, driver, cf = case["frames"], case["driver"], case.get("cf", False)
     pre = case.get("pre")
     resume = bool(case.get("resume"))
+    if case.get("accept"):
+        # the WebSocketApp send path: replies go through a dispatcher object, and the transport takes them in pieces
+        from websocket import _dispatcher as D
+
+        from ..fakesock import make_ws, split_at
+
+        wire, frames, ends = rx.wire_of(specs)
+        ws, fs = make_ws(split_at(wire, case.get("cuts", [])), accept=case["accept"], dispatcher=(D.SSLDispatcher if case.get("ssl") else D.Dispatcher)(None, 10))
+        events = rx.drive(ws, fs, driver, cf, resume=resume)
+        want, wwr = rx.expected_events(frames, ends, len(wire), driver, cf, resume=resume)
+        # the number of transport writes per reply is not fixed here: compare values and the decoded replies only
+        strip = lambda evs: [e[:3] + (0,) + e[4:] if e[0] in ("ret", "raise") else e for e in evs]  # noqa: E731
+        if rx.compare(obs, strip(events), strip(want), f"trace|short-writes-via-dispatcher|{driver}"):
+            rx.compare_writes(obs, fs, wwr, "replies|short-writes-via-dispatcher")
+        pings = [f for f in frames if f.opcode == rm.PING]
+        obs.cls = (driver, f"cf:{int(cf)}", f"pings:{min(len(pings), 6)}", "via-dispatcher-short-writes")
+        obs.nt = (driver, cf, rx.shape(frames), tuple(case["accept"]), "disp") if pings else None
+        return obs
     if pre:
         # the application has already used the connection (sent data, a ping, or its own close frame) before it receives
         from ..fakesock import make_ws, split_at
@@ -132,6 +150,10 @@ def cases(draw):
     inside, seams = rx.header_offsets(frames)
     cuts = draw(rx.cutset(len(wire), inside + seams)) if draw(st.booleans()) else []
     c = {"frames": specs, "driver": driver, "cf": cf, "cuts": cuts, "pre": draw(st.sampled_from([None, None, None, "send_close", "send", "ping"]))}
+    if draw(st.integers(0, 5)) == 0:
+        c["accept"] = draw(st.lists(st.integers(1, 9), min_size=1, max_size=6))
+        c["ssl"] = draw(st.booleans())
+        return c
     if draw(st.integers(0, 3)) == 0:
         # a frame the client must reject arrives somewhere; the application catches the exception and keeps receiving
         bad = draw(st.sampled_from([{"fin": 1, "op": rm.TEXT, "rsv": 4, "p": b"x"}, {"fin": 1, "op": 3, "p": b""}, {"fin": 0, "op": rm.PING, "p": b"f"},
